@@ -174,7 +174,7 @@ def G1c_unique(o0, o1, u0, u1, u2, sync):
 
 @obligation(params=dict(o0=Int(0, 7), u0=Int(0, 1), u1=Int(0, 1), u2=Int(0, 1), pa=Int(0, 3), pb=Int(0, 3), auto=Bool(),
                         sync=Bool(), quiet=Bool()),
-            tags={2: 'login succeeded at a prompt', 3: 'raised'}, findings=_FIND, timeout=600,
+            tags={2: 'login succeeded at a prompt', 3: 'raised'}, findings=_FIND, timeout=600, split=('o0',),
             note='all phases together for one-step dialogues, every option combination')
 def G1d_together(o0, u0, u1, u2, pa, pb, auto, sync, quiet):
     return _login_case(o0, 5, 5, 5, u0, u1, u2, pa, pb, auto, sync, quiet)
@@ -196,6 +196,7 @@ def _lev(a, b):
 
 
 @obligation(params=dict(a=Text(3), b=Text(3)), tags={2: 'equal strings', 3: 'different strings'}, timeout=600,
+            pre=['a_n <= b_n or a_n > b_n'],
             note='levenshtein_distance equals the textbook edit distance (symbolic strings, <= 3 characters each)')
 def G2_levenshtein(a, b):
     s = PX.pxssh()
